@@ -85,13 +85,44 @@ def rule_shapes(ctx):
     ctx.ob('C19.shapes', f'{ea.fq}:branches', need <= handled, f'evaluator handles shapes {sorted(x for x in handled if x is not None)}; encoder can produce {sorted(need)}', ea.node, mod)
 
 
-def appended(fnode, listname='contents'):
+def appended(fnode, listname=None):
+    """[(where, expanded-arg-text)] for every append to the output list, with local names replaced by what they were
+    last assigned (so the comparison does not depend on local variable names); loop variable normalised to `i`."""
+    if listname is None:
+        cands = [s.targets[0].id for s in walk_local_ordered(fnode) if isinstance(s, ast.Assign) and isinstance(s.value, ast.List)
+                 and not s.value.elts and isinstance(s.targets[0], ast.Name)]
+        listname = cands[0] if cands else 'contents'
+    defs = {}
     out = []
-    for s in walk_local_ordered(fnode):
-        if isinstance(s, ast.Expr) and isinstance(s.value, ast.Call) and U.method_name(s.value) == 'append' and norm(s.value.func.value) == listname:
-            inloop = any(isinstance(p, ast.For) for p in U.parent_chain(s) if not isinstance(p, ast.FunctionDef))
-            out.append(('loop' if inloop else 'head', norm(s.value.args[0])))
+
+    def subst(node):
+        src = norm(node)
+        for nm in sorted(set(U.names_in(node)), key=len, reverse=True):
+            if nm in defs:
+                src = re.sub(rf'(?<![.\w]){nm}\b', defs[nm], src)
+        return src
+
+    def visit(stmts, where):
+        for s in stmts:
+            if isinstance(s, ast.Assign) and len(s.targets) == 1 and isinstance(s.targets[0], ast.Name):
+                defs[s.targets[0].id] = '(' + subst(s.value) + ')' if not isinstance(s.value, (ast.Name, ast.Constant, ast.Call, ast.Attribute)) else subst(s.value)
+            elif isinstance(s, ast.If) and len(s.body) == 1 and isinstance(s.body[0], ast.Assign) and isinstance(s.body[0].targets[0], ast.Name) \
+                    and norm(s.test) == f'{s.body[0].targets[0].id} is None' and not s.orelse:
+                nm = s.body[0].targets[0].id
+                defs[nm] = f'({defs.get(nm, nm)} ?? {norm(s.body[0].value)})'
+            elif isinstance(s, ast.For):
+                if isinstance(s.target, ast.Name):
+                    defs[s.target.id] = 'i'
+                visit(s.body, 'loop')
+            elif isinstance(s, ast.Expr) and isinstance(s.value, ast.Call) and U.method_name(s.value) == 'append' and norm(s.value.func.value) == listname:
+                out.append((where, subst(s.value.args[0])))
+    visit(fnode.body, 'head')
     return out
+
+
+LV = 'gpp.ugen_param(self.levels)._as_ugen_input()'
+TM = 'gpp.ugen_param(self.times)._as_ugen_input()'
+CV = 'gpp.ugen_param(utl.as_list(self.curves))._as_ugen_input()'
 
 
 def rule_fmt(ctx):
@@ -104,22 +135,25 @@ def rule_fmt(ctx):
     ap = appended(f.node)
     head = [a for k, a in ap if k == 'head']
     loop = [a for k, a in ap if k == 'loop']
-    ctx.ob('C19.fmt', f'{f.fq}:header', head == ['levels[0]', 'size', 'aux_input', 'aux_input'], f'header appends {head}', f.node, mod)
-    ctx.ob('C19.fmt', f'{f.fq}:segment', loop == ['levels[i + 1]', 'times[i]', 'type(self)._shape_number(curves[i % len(curves)])',
-                                                    'type(self)._curve_value(curves[i % len(curves)])'], f'segment appends {loop}', f.node, mod)
-    src = full(f.node)
-    ok = U.before(src, 'aux_input = gpp.ugen_param(self.release_node)._as_ugen_input()', 'if aux_input is None: aux_input = -99', 'contents.append(aux_input)',
-                  'aux_input = gpp.ugen_param(self.loop_node)._as_ugen_input()')
-    ok = ok and src.count('if aux_input is None: aux_input = -99') == 2
-    ctx.ob('C19.fmt', f'{f.fq}:nodes', ok, 'release node then loop node, each -99 when absent', f.node, mod)
-    ctx.ob('C19.fmt', f'{f.fq}:size', 'size = len(self.times)' in src and 'for i in range(size)' in src, 'segment count is the number of times', f.node, mod)
+    want_head = [f'{LV}[0]', 'len(self.times)', '(gpp.ugen_param(self.release_node)._as_ugen_input() ?? -99)',
+                 '(gpp.ugen_param(self.loop_node)._as_ugen_input() ?? -99)']
+    ctx.ob('C19.fmt', f'{f.fq}:header', head == want_head, f'header appends {head}; must be level0, segment count, release node or -99, loop node or -99', f.node, mod)
+    want_seg = [f'{LV}[i + 1]', f'{TM}[i]', f'type(self)._shape_number({CV}[i % len({CV})])', f'type(self)._curve_value({CV}[i % len({CV})])']
+    ctx.ob('C19.fmt', f'{f.fq}:segment', loop == want_seg, f'segment appends {loop}; must be target level, duration, shape number, curvature with curves wrapped', f.node, mod)
+    ctx.ob('C19.fmt', f'{f.fq}:nodes', head[2:] == want_head[2:], 'release node then loop node, each -99 when absent', f.node, mod)
+    loops_ = [x for x in walk_local(f.node) if isinstance(x, ast.For)]
+    okr = len(loops_) == 1 and isinstance(loops_[0].iter, ast.Call) and norm(loops_[0].iter.func) == 'range' and len(loops_[0].iter.args) == 1
+    szn = norm(loops_[0].iter.args[0]) if okr else None
+    okr = okr and any(isinstance(x, ast.Assign) and norm(x.targets[0]) == szn and norm(x.value) == 'len(self.times)' for x in walk_local(f.node))
+    ctx.ob('C19.fmt', f'{f.fq}:size', okr, 'one record per duration: the loop runs over range(len(self.times))', f.node, mod)
     g = ci.methods['_interpolation_format']
     ap = appended(g.node)
     head = [a for k, a in ap if k == 'head']
     loop = [a for k, a in ap if k == 'loop']
-    ctx.ob('C19.fmt', f'{g.fq}:header', head == ['aux_input', 'levels[0]', 'size', 'utl.list_sum(times)'], f'header appends {head}', g.node, mod)
-    ctx.ob('C19.fmt', f'{g.fq}:segment', loop == ['times[i]', 'type(self)._shape_number(curves[i % len(curves)])',
-                                                    'type(self)._curve_value(curves[i % len(curves)])', 'levels[i + 1]'], f'segment appends {loop}', g.node, mod)
+    ctx.ob('C19.fmt', f'{g.fq}:header', head == ['(gpp.ugen_param(self.offset)._as_ugen_input() ?? 0)', f'{LV}[0]', 'len(self.times)', f'utl.list_sum({TM})'],
+           f'header appends {head}; must be offset or 0, level0, segment count, total duration', g.node, mod)
+    ctx.ob('C19.fmt', f'{g.fq}:segment', loop == [f'{TM}[i]', f'type(self)._shape_number({CV}[i % len({CV})])',
+                                                    f'type(self)._curve_value({CV}[i % len({CV})])', f'{LV}[i + 1]'], f'segment appends {loop}', g.node, mod)
     i = ci.methods['__init__']
     src = full(i.node)
     ctx.ob('C19.fmt', f'{i.fq}:times-wrap', 'self.times = utl.wrap_extend(utl.as_list(times or [1, 1]), len(self.levels) - 1)' in src,
@@ -274,3 +308,7 @@ MUTANTS = [
 ]
 
 REPAIRS = []
+
+EQUIV = [
+    dict(name='rename locals of _envgen_format', file='sc3/synth/envelope.py', start='    def _envgen_format(self):', end='    def _interpolation_format(self):', rename=[('aux_input', 'node'), ('size', 'nseg')]),
+]
